@@ -5,7 +5,7 @@ C11: the invariants of C04 at the states reachable by arbitrary histories, and t
 release theorems on reachable states.  Core Lean only.
 -/
 
-namespace Sth
+namespace Sth.C11
 
 /-- every reachable state satisfies the index/primary log invariant of C04 -/
 theorem reach_yinv (c : Cfg) (hc : c.Legal) (ops : List SOp) (hk : KeysOK c.kind ops)
@@ -66,4 +66,4 @@ theorem index_file_released_inv {c : Cfg} {s : SState} (hY : YInv c s) {f : Nat}
     have := (indexGC_keeps s.m s.d true none f).2 hnone
     exact ⟨Or.inl this, fun _ _ _ => this⟩
 
-end Sth
+end Sth.C11
